@@ -24,6 +24,7 @@ def jval : Argparse.Val → Json
 def errName : Argparse.PErr → String
   | .argumentError => "ArgumentError"
   | .systemExit => "SystemExit"
+  | .typeError => "TypeError"
   | .unsupported => "unsupported"
 
 def tagName : Extract.Tag → String
